@@ -1195,7 +1195,9 @@ def c07n_case(r, group, dbg=True):
     if r.random() < 0.2:
         k = r.randrange(n)
         a = [x if i == k else 0.0 for i, x in enumerate(a)]
-    idx = sorted(set([-3, -1, 0, n - 1, n, n + 1, n + 3, r.randrange(n)]))
+    ri = r.randrange(n)
+    # far out-of-range indices that alias an in-range one modulo a power of two or the DoF must raise too
+    idx = sorted(set([-3, -1, 0, n - 1, n, n + 1, n + 3, ri, ri + 16, n - 1 + 32, ri - 16, ri + 256, ri + 65536, ri + n, ri + 2 * n, ri - n]))
     reqs = [gen.req(dbg, "o", group, "generator", 0, [], [i]) for i in idx]
     reqs += [gen.req(dbg, "o", group, "innerWeights", 0, []), gen.req(dbg, "o", group, "wnorm", 0, a),
              gen.req(dbg, "o", group, "sqwnorm", 0, a), gen.req(dbg, "o", group, "inner", 0, a + a)]
